@@ -64,6 +64,18 @@ def rule_k2(ctx):
     rets = [r for r in walk_local(f) if isinstance(r, ast.Return)]
     ok = len(rets) == 1 and src(rets[0].value) == "tree" and rets[0] is f.body[-1]
     ctx.check(ok, "K2-parse-semantic", c, "returns the parsed tree after the check", site(f), "the tree must be returned after the semantic check", "returns tree")
+    # the parser is applied to exactly the argument string (no trimmed / retried variants: they accept strings outside the language)
+    pcalls = [x for x in calls_in(f) if call_name(x) == "parser.parse"]
+    if not pcalls:
+        raise Unrecognised("C18.K2", c, "parser.parse(...) call not found")
+    for pc in pcalls:
+        a0 = src(pc.args[0]) if pc.args else None
+        ctx.check(a0 == "inp", "K2-parse-syntax", c, f"parser applied to the argument string itself ({src(pc)[:40]})", site(pc),
+                  f"the parser is (also) run on `{a0}` instead of the given string `inp`: a string outside the grammar's language (e.g. one with an extra trailing newline) is then accepted, "
+                  "parse returns the tree of a different string and check(str) answers True for it", "parser.parse(inp)")
+    if len(pcalls) > 1:
+        ctx.viol("K2-parse-syntax", c, "single parse attempt", site(pcalls[1]), f"{len(pcalls)} parse attempts: a SyntaxError of the first attempt is not final")
+        return
     tr = [n for n in walk_local(f) if isinstance(n, ast.Try)]
     if len(tr) != 1:
         raise Unrecognised("C18.K2", c, "try not found")
